@@ -49,6 +49,10 @@ func (m *lbTaskMgr) Receive(resp *protoCommonV1.TaskResponse, from string) error
 	m.mu.Lock()
 	c := m.ctx
 	m.mu.Unlock()
+	if c == nil {
+		// as taskManager.Receive: a response for a request id nobody registered is refused
+		return fmt.Errorf("request may be evicted")
+	}
 	c.HandleResponse(resp, from)
 	return nil
 }
@@ -198,6 +202,7 @@ func loopbackCase(c *core.Ctx, rng *rand.Rand) {
 		if real && got.Err == "pending" && ref.res.Err == "" && emptyLeaf != "" {
 			c.Fail("empty-leaf-turns-answer-into-timeout",
 				fmt.Sprintf("leaf %s knows the metric, has no matching series and answers successfully; through taskManager.Receive the query ends with the deadline instead of %q", emptyLeaf, ref.res.answerLine()))
+			noteTimeoutCase()
 			continue
 		}
 		if withErr {
@@ -209,7 +214,8 @@ func loopbackCase(c *core.Ctx, rng *rand.Rand) {
 		}
 		if got.Err == "pending" && ref.res.Err == "" {
 			c.Fail("answer-turns-into-timeout", fmt.Sprintf("%s: every target answered, the real search ends with the deadline instead of %q", sched, ref.res.answerLine()))
-			continue
+			noteTimeoutCase() // every such case costs the search's whole deadline: the run stops after max_hangs of them
+			break
 		}
 		if got.Err != ref.res.Err || got.answerLine() != ref.res.answerLine() {
 			c.Fail("send-response-interleaving-changes-answer",
